@@ -260,12 +260,19 @@ def gen_gridworld(rng, rows=None, simple=False):
     return finish(rng, case, ["step_cost", "success_prob"])
 
 
+def windy_f32_safe(case):
+    """every float32 intermediate of the windy pipeline (products p*q, sums of r*p) is exact: quarter-valued wind
+    probability and small quarter-valued costs / rewards"""
+    vals = [case["step_cost"], case["wall_bump_cost"]] + list((case.get("feature_rewards") or {}).values())
+    return case["wind_probability"] in QUART and all(is_dyadic(v) and abs(F(v)) <= 64 and F(v).denominator <= 4 for v in vals)
+
+
 def finish(rng, case, numeric_keys):
     """forms and reuse scenarios shared by all domains"""
     vals = [case[k] for k in numeric_keys] + list((case.get("feature_rewards") or {}).values())
     pk = [case[k] for k in ("success_prob", "wind_probability", "coherence") if k in case]
     if not case.get("ints") and all(f32_exact(v) for v in vals) and all(f32_exact(1 - F(v)) for v in pk) \
-            and rng.random() < .25:
+            and (case["kind"] != "windy" or windy_f32_safe(case)) and rng.random() < .25:
         case["np32"] = True          # numpy float32 scalars (only where every parameter is exact in float32)
         case["ints"] = False
     case["rebuild"] = rng.choice([None, None, 0, 1, 2])
@@ -502,6 +509,9 @@ def model_dist(lst, nkey):
             continue
         d[k] = (d[k][0] + p, r) if k in d else (p, r)
     return d
+
+
+F32TOL = F(4, 2 ** 24)      # a few float32 ulps: np.float32 parameters whose products / sums are rounded to 24 bits
 
 
 def close_dist(md, idd, tol=F(1, 10 ** 12)):
@@ -831,7 +841,7 @@ rowsl(case["rows"]), frewl(fr), qd(case["step_cost"]), qd(case["wall_bump_cost"]
 GMA = [(0, -1), (0, 1), (1, 0), (-1, 0)]
 
 
-def grid_compare(res, rows, init, approx=False):
+def grid_compare(res, rows, init, approx=False, tol=F(1, 10 ** 12)):
     diffs = []
     for mrow, irow in zip(rows, res["rows"]):
         mabs, macts = mrow
@@ -845,7 +855,7 @@ def grid_compare(res, rows, init, approx=False):
             continue
         for ment, ient in zip(macts, irow["next"]):
             md, idd = model_dist(ment, 2), impl_dist(ient)
-            if (not close_dist(md, idd)) if approx else (md != idd):
+            if (not close_dist(md, idd, tol)) if approx else (md != idd):
                 diffs.append("next_state_dist/reward")
     if "init" not in res or not uniform_ok(res["init"], init, 2):
         diffs.append("initial_state_dist")
@@ -1077,7 +1087,11 @@ def run(ctx):
                 else:
                     rows, init, mstates = v
                     cnon = True
-                diffs = grid_compare(res, rows, init, approx=bool(case.get("approx")))
+                # np.float32 parameters outside the class where every float32 intermediate is exact (not generated any
+                # more; kept for replays): msdm computes in float32, compare within a few float32 ulps
+                f32noise = kind == "windy" and bool(case.get("np32")) and not windy_f32_safe(case)
+                diffs = grid_compare(res, rows, init, approx=bool(case.get("approx")) or f32noise,
+                                     tol=F32TOL if f32noise else F(1, 10 ** 12))
                 # the executable closure the theorems windy_reach_closed / cliff_reach_closed are about
                 # (theory/DomainsClosure.v: windy_states / cliff_states) = msdm's reachability-derived state_list
                 if sorted(tup(x) for x in mstates) != sorted(tup(x) for x in res["state_list"]):
